@@ -7,18 +7,24 @@ Specs: specs/fn/PyEncoding.tla (EXTENDS TypedValues.tla; calls re-use CallPack.t
                 int32 length prefixes, dicts as arrays of required {key, value} structs, column-major n-d arrays
   Dec(t, b, p)  the same layout as a reader; TLC checks Dec(Enc(v)) = v with no byte left over on the universe
                 (EncodingSelf) before anything is bound.
-Binding B3, both halves on the same TLC-enumerated <<type, value>> pairs (the universe of C32, incl. n-d arrays in
-C / Fortran / strided memory order):
+Binding B3, all halves on the same TLC-enumerated <<type, value>> pairs (the universe of C32, incl. loci of a registered
+reference genome, intervals of loci, n-d arrays in C / Fortran / strided memory order, depth-3 types in the thorough tier):
   (a) round trip   real _to_encoding then _from_encoding, decoded = input under the type's equality (TypedValues.Match)
   (b) layout       bytes written by the real _to_encoding == Enc(t, v)  (sets / dicts in the iteration order of the
-                   Python object, which the harness reports and TLC checks to be the same value)
+                   Python object, which the harness reports and TLC checks to be the same value); locus = EBaseStruct
+                   {contig: EBinary, position: EInt32} (one missing byte), interval = EBaseStruct{start, end,
+                   includesStart, includesEnd}, n-d array = int64 extents + column-major elements
+  (c) public path  hl.literal(v, t) (whole `hail` package imported): the IR node is an EncodedLiteral, its RENDERED text is
+                   (EncodedLiteral <type> "<base64>"); the payload must equal the bytes of (b) and is what (a) decodes
 The verdict of both halves is computed by TLC (PyEncodingVerdict).  The Scala side cannot be executed here: it is a
 hand transcription (trusted base), fingerprinted below.
 """
 from __future__ import annotations
 
+import base64
 import hashlib
 import json
+import re
 from concurrent.futures import ThreadPoolExecutor
 
 from vlib import loader, tlc
@@ -37,8 +43,9 @@ MANIFEST = {
             "the encode/decode round trip. The engine side is a manual transcription (cannot be built offline), fingerprinted.",
     "note": "Trusts: TLC + CommunityModules; the hand transcription of the Scala E-types in PyEncoding.tla and of Call.scala in "
             "CallPack.tla; the IEEE-754 / UTF-8 constant tables in PyEncoding.tla; little-endian host (struct '=' formats in "
-            "hail.utils.byte_reader). NOT covered: locus / interval<locus> (reference genome), the engine actually executing "
-            "its decoders, the base64 / IR-text transport of EncodedLiteral.",
+            "hail.utils.byte_reader); the reference genome is built with _builtin=True and held by a registry that only owns the "
+            "dict. NOT covered: the engine actually executing its decoders, the engine's parser of the IR text, top-level "
+            "int / float / bool / str literals (hl.literal renders them as I32 / F64 / Str ... nodes, not as encoded bytes).",
     "design_ref": "DESIGN.md section 5, C33",
 }
 
@@ -52,6 +59,25 @@ TRANSCRIBED = {
 }
 
 
+_LIT = re.compile(r'\(EncodedLiteral (.*) "([A-Za-z0-9+/=]*)"\)', re.S)
+TEMPLATE = {"vin": dict(tv.NA), "bytes": [], "haslit": False, "lit": []}
+
+
+def literal_payload(H, T, x):
+    """The public path: hl.literal(x, T) -> EncodedLiteral -> its rendered IR text -> the base64 payload, decoded.
+    None when hl.literal does not produce an EncodedLiteral (top-level int32 / int64 / float / bool / str become I32 / Str ...)."""
+    e = H.hl.literal(x, T)
+    node = e._ir
+    if not isinstance(node, H.ir.EncodedLiteral):
+        return None
+    if e.dtype != T:
+        raise AssertionError(f"hl.literal(x, {T}) has dtype {e.dtype}")
+    m = _LIT.fullmatch(str(node))
+    if m is None or m.group(1) != T._parsable_string():
+        raise AssertionError(f"rendered EncodedLiteral not of the form (EncodedLiteral <type> \"<base64>\"): {str(node)[:120]!r}")
+    return base64.b64decode(m.group(2), validate=True)
+
+
 def _convert(T, x, rec):
     H = tv.load()
     rec["vin"] = tv.abstract(H, x)
@@ -61,6 +87,14 @@ def _convert(T, x, rec):
         e.stage = "to_encoding"
         raise
     rec["bytes"] = list(b)
+    try:
+        lit = literal_payload(H, T, x)
+    except Exception as e:  # noqa: BLE001
+        e.stage = "literal"
+        raise
+    if lit is not None:          # what the engine receives is the payload of the rendered literal: decode THAT
+        rec["haslit"], rec["lit"] = True, list(lit)
+        b = lit
     try:
         r = H.ByteReader(memoryview(b))
         out = T._convert_from_encoding(r)
@@ -75,7 +109,7 @@ def _convert(T, x, rec):
 def replay(ctx, rp):
     wd = tlc.prepare_dir(ctx.build / "tlc", ["fn"])
     tv.replay_pair(ctx, wd, rp, wire="encoding", convert=_convert, verdict_module="PyEncodingVerdict",
-                   template={"vin": dict(tv.NA), "bytes": []})
+                   template=TEMPLATE)
 
 
 def run(ctx):
@@ -105,7 +139,7 @@ def run(ctx):
     # ---- (2)-(4) Gen, the real code, Verdict (round trip + layout) -------------------------------------------
     cases, verdict, stats = tv.roundtrip_check(
         ctx, wd, wire="encoding", convert=_convert, level=level, with_nd=True, nextra=25 if ctx.quick else 200,
-        verdict_module="PyEncodingVerdict", template={"vin": dict(tv.NA), "bytes": []}, top_level_missing=False,
+        verdict_module="PyEncodingVerdict", template=TEMPLATE, top_level_missing=False,
         stride=2 if ctx.quick else 1)
     out = selfcheck.result()
     pool.shutdown()
@@ -119,8 +153,14 @@ def run(ctx):
     nbytes = sum(len(c["bytes"]) for c in cases)
     two_missing_bytes = sum(1 for c in cases if c["t"]["k"] in ("tuple", "struct") and len(c["t"]["ts"]) > 8)
     nd_orders = {o: sum(1 for c in cases if c["v"].get("ord") == o) for o in ("C", "F", "V")}
+    nlit = sum(1 for c in cases if c["haslit"])
+    nprim_top = sum(1 for c in cases if c["t"]["k"] in ("int32", "int64", "float32", "float64", "bool", "str"))
     if nbytes == 0 or two_missing_bytes == 0 or min(nd_orders.values()) == 0:
         raise RuntimeError(f"vacuous: bytes={nbytes} wide-structs={two_missing_bytes} nd={nd_orders}")
+    if stats["cases_with_locus"] == 0 or (not ctx.quick and stats["depth3_cases"] == 0):
+        raise RuntimeError(f"vacuous universe: {stats}")
+    if stats["bad_cases"] == 0 and nlit + nprim_top != len(cases):
+        raise RuntimeError(f"hl.literal produced an EncodedLiteral for {nlit} of {len(cases) - nprim_top} non-primitive cases")
 
     # ---- observations outside the verdict ---------------------------------------------------------------------
     T = H.types
@@ -137,8 +177,10 @@ def run(ctx):
                    rule=f"TLC checks Dec(Enc(v)) = v on the depth<=1 universe and the quick depth-2 selection (PyEncodingSelf); B3: TLC "
                         f"enumerates Vals(t, 2) for every type of CoreTypes (level {level}{', every 2nd pair by seed' if ctx.quick else ''}) plus {stats['extra_types']} types drawn with seed "
                         f"{ctx.seed} from the depth-2 grammar; each pair is one real _to_encoding (bytes compared with Enc) and one real "
-                        "_from_encoding (value compared with Match), judged by TLC; non-trivial = distinct non-primitive types exercised")
-    ctx.cov["universe"] = dict(stats, bytes_compared=nbytes, nine_field_structs=two_missing_bytes, ndarray_cases_by_memory_order=nd_orders)
+                        "_from_encoding (value compared with Match), judged by TLC; for every non-primitive type also hl.literal(v, t): the base64 "
+                        "payload of the rendered EncodedLiteral must equal those bytes and is what is decoded; non-trivial = distinct non-primitive types exercised")
+    ctx.cov["universe"] = dict(stats, bytes_compared=nbytes, nine_field_structs=two_missing_bytes, ndarray_cases_by_memory_order=nd_orders,
+                               rendered_literals_decoded=nlit, top_level_primitive_cases_without_literal=nprim_top)
     step = max(1, n // 6)
     for c in cases[::step][:6]:
         ctx.sample({"type": tv.type_str(c["t"]), "value": c["v"], "bytes": bytes(c["bytes"]).hex(), "decoded": c["w"], "error": c["err"]})
@@ -148,8 +190,11 @@ def run(ctx):
                "the top-level value is never missing (hl.literal turns None into hl.missing before encoding) and has no presence byte",
                "sets and dicts are written in the iteration order of the Python object; the engine sorts after decoding, so any order is "
                "the expected layout; the harness reports the order and TLC checks it is the same value",
-               "locus and interval<locus> are not in the universe (reference genome = backend); the IEEE-754 and UTF-8 constants are "
-               "tables in PyEncoding.tla",
+               "the whole hail package is imported offline; the reference genome verif_rg is a real ReferenceGenome (_builtin=True, registered "
+               "with the real Backend.add_reference), no backend and no default reference exist; the IEEE-754 and UTF-8 constants "
+               "(strings, contig names) are tables in PyEncoding.tla",
+               "locus layout: the engine's target struct has required contig / position; a set missing bit is not a locus (the front end "
+               "never writes one)",
                "equality of the round-trip half as in C32 (IEEE identity up to NaN payload, float32 after rounding, sets/dicts unordered, "
                "n-d arrays by dtype, shape and index-wise content)")
 
